@@ -605,15 +605,17 @@ func nestedInitStores(alloc ssa.Value) map[string][]ssa.Value {
 	return out
 }
 
-func c16PolicyWiring(c *Ctx) {
-	rule := "C16/policy-wiring"
+func c16PolicyWiring(c *Ctx) { c16PolicyWiringAs(c, "C16/policy-wiring", nil) }
+
+// c16PolicyWiringAs: only the named Gateway fields when only != nil.
+func c16PolicyWiringAs(c *Ctx, rule string, only map[string]bool) {
 	mainFn := c.Fn("cmd/rdpgw", "main")
 	var gw ssa.Value
 	c.eachMainInstr(func(in ssa.Instruction) {
 		if mc, ok := in.(*ssa.MakeClosure); ok {
 			f := mc.Fn.(*ssa.Function)
 			if f.Synthetic != "" && strings.HasPrefix(f.Name(), "HandleGatewayProtocol$bound") && len(mc.Bindings) == 1 {
-				gw = mc.Bindings[0]
+				gw = c.upOne(mc.Bindings[0]) // a route helper of main is handed the gateway
 			}
 		}
 	})
@@ -634,6 +636,9 @@ func c16PolicyWiring(c *Ctx) {
 		"TokenAuth":                "Caps.TokenAuth",
 	}
 	for _, field := range sortedKeys(pairs) {
+		if only != nil && !only[field] {
+			continue
+		}
 		want := pairs[field]
 		vs := init[field]
 		key := "main Gateway." + field
@@ -648,6 +653,19 @@ func c16PolicyWiring(c *Ctx) {
 		}
 		c.Check(ok && p == want, rule, key, pos, "= conf."+want, fmt.Sprintf("initialised from conf.%s instead of conf.%s: the response reports a different policy than the administrator configured", p, want))
 	}
-	// the koanf tags of the configuration fields carry the documented names
-	c.Floor(rule, 10, "10 policy fields")
+	// the idle timeout travels as a signed int from the configuration to the clamp in tunnelAuthResponse
+	if only == nil || only["IdleTimeout"] {
+		cf := c.FieldVar("cmd/rdpgw/config", "RDGCapsConfig", "IdleTimeout")
+		gf := c.FieldVar("cmd/rdpgw/protocol", "Gateway", "IdleTimeout")
+		signed := func(t types.Type) bool {
+			b, ok := t.Underlying().(*types.Basic)
+			return ok && b.Info()&types.IsInteger != 0 && b.Info()&types.IsUnsigned == 0
+		}
+		c.Check(signed(cf.Type()) && signed(gf.Type()), rule, "IdleTimeout signedness", cf.Pos(), "configuration field and Gateway field are signed integers (a negative setting reaches the clamp as negative)", "the idle timeout is held in an unsigned field on its way to the response builder: a negative setting wraps to a huge value and is never clamped to 0")
+	}
+	if only == nil {
+		c.Floor(rule, 10, "10 policy fields")
+	} else {
+		c.Floor(rule, len(only), "selected policy fields")
+	}
 }
